@@ -19,6 +19,9 @@ def dt(x):
 
 
 def undt(d):
+    if d.microsecond:
+        return [d.year, d.month, d.day, d.hour, d.minute, d.second,
+                d.microsecond]
     return [d.year, d.month, d.day, d.hour, d.minute, d.second]
 
 
@@ -96,6 +99,10 @@ def gen_family_rule(rng, base, cache=False):
 def gen_family_date(rng, base):
     d = dt(list(base[:2]) + [1, 0, 0, 0]) + datetime.timedelta(
         days=rng.randrange(0, 14), hours=rng.choice([0, 0, 0, 12, 6]))
+    if rng.random() < 0.12:
+        # listed dates are kept exactly as given, sub-second part included
+        # (rule occurrences always fall on whole seconds)
+        d = d.replace(microsecond=rng.choice([1, 500000, 999999]))
     return undt(d)
 
 
